@@ -72,6 +72,9 @@ func gen(g *vh.Gen) {
 	emit(2, []string{a(0, 1), a(0, 2), "X", a(0, 3), "R", a(0, 4)})
 	emit(0, []string{a(0, 1), a(1, 2), "R", "r.0.0", "R", a(0, 3), "p.1", "R"})
 	emit(0, []string{"R", "X", a(3, 1), "p.3", "X", "R"})
+	// the cap shrinks between runs: the next delivery evicts several messages at once
+	emit(0, []string{a(0, 1), a(0, 2), a(0, 3), a(0, 4), "C.2", a(0, 5), "R"})
+	emit(3, []string{a(1, 1), a(1, 2), a(1, 3), "X", "C.1", a(1, 4), "C.0", a(1, 5)})
 	// in-process reopen points at random positions
 	for i := 0; i < g.N(200, 5000); i++ {
 		s := &genState{g: g}
@@ -81,6 +84,8 @@ func gen(g *vh.Gen) {
 		for j, n := 0, 2+g.Intn(9); j < n; j++ {
 			if g.Chance(0.25) {
 				ops = append(ops, "R")
+			} else if g.Chance(0.06) {
+				ops = append(ops, fmt.Sprintf("C.%d", g.Intn(4)))
 			}
 			ops = append(ops, s.op(mbs))
 		}
